@@ -111,6 +111,7 @@ type Encoder struct {
 	wtSeen     map[string]bool
 	nonLocalKeys map[string]bool
 	loopOuterAllocs map[*ssa.Alloc]bool
+	reachedPC  map[string]string
 }
 
 type loopInfo struct {
